@@ -351,8 +351,14 @@ class PySide(object):
             def __call__(self, solver):
                 pass
 
-        def deco(flag, f):
-            return clear_pending_pop(f) if flag else f
+        def deco(flag, f, name):
+            # the function carries the NAME the real wrappers give it (`_pop`, `solve`, …): code that looks at
+            # `f.__name__` (decorators, logging) must see what it sees on a real solver class
+            import types
+            g = types.FunctionType(f.__code__, f.__globals__, name, f.__defaults__, f.__closure__)
+            g.__qualname__ = "Toy." + name
+            g.__doc__ = f.__doc__
+            return clear_pending_pop(g) if flag else g
 
         # the native solver: an SMT-LIB assertion stack that refuses to pop its base level
         def n_add(self, formula, named=None):
@@ -420,11 +426,11 @@ class PySide(object):
                     self.nat = [[]]
                     self.log = []
                     self.fail_add = self.fail_solve = False
-                _add_assertion = deco(dAdd, n_add)
-                _push = deco(dPush, n_push)
-                _pop = deco(dPop, n_pop)
-                _reset_assertions = deco(dReset, n_reset)
-                _solve = deco(dSolve, n_solve)
+                _add_assertion = deco(dAdd, n_add, "_add_assertion")
+                _push = deco(dPush, n_push, "_push")
+                _pop = deco(dPop, n_pop, "_pop")
+                _reset_assertions = deco(dReset, n_reset, "_reset_assertions")
+                _solve = deco(dSolve, n_solve, "_solve")
 
                 def _exit(self):
                     pass
@@ -444,11 +450,11 @@ class PySide(object):
                     self.nat = [[]]
                     self.log = []
                     self.fail_add = self.fail_solve = False
-                add_assertion = deco(dAdd, n_add)
-                push = deco(dPush, n_push)
-                pop = deco(dPop, n_pop)
-                reset_assertions = deco(dReset, n_reset)
-                solve = deco(dSolve, n_solve)
+                add_assertion = deco(dAdd, n_add, "add_assertion")
+                push = deco(dPush, n_push, "push")
+                pop = deco(dPop, n_pop, "pop")
+                reset_assertions = deco(dReset, n_reset, "reset_assertions")
+                solve = deco(dSolve, n_solve, "solve")
 
                 def _exit(self):
                     pass
